@@ -55,6 +55,8 @@ type qgen struct {
 	budget   int
 	on       map[string]bool // hostile families enabled for this case
 	aliasSeq int
+	curFrag  int  // index of the fragment whose body is being generated, -1 in operations
+	forceAl  bool // alias every field (fragment bodies), avoids accidental conflicts with the spreading selection set
 }
 
 // families of hostile constructs; a case enables a few of them so that most
@@ -375,64 +377,74 @@ func (g *qgen) args(fd *fieldDesc) string {
 func (g *qgen) selectionSet(typ string, depth int) string {
 	td := g.d.Types[typ]
 	n := 1 + g.r.Intn(4)
-	if g.chance(2) {
+	if g.h("empty_set", 25) {
 		g.feat("sel:empty_set")
 		n = 0
 	}
 	var parts []string
+	usedNames := map[string]bool{}
 	for i := 0; i < n; i++ {
 		g.budget--
 		roll := g.r.Intn(100)
 		switch {
-		case td != nil && td.Union && roll < 70:
+		case td != nil && td.Union && (roll < 75 || !g.on["bad_selection"]):
+			if roll >= 75 {
+				g.feat("sel:__typename")
+				parts = append(parts, "__typename")
+				continue
+			}
 			on := g.typeNameFor(typ)
 			g.feat("sel:inline_fragment")
 			parts = append(parts, "... on "+on+g.directives(15)+" "+g.selectionSet(on, depth-1))
-		case roll < 8 && len(g.frags) > 0:
+		case roll < 12 && len(g.spreadable(typ)) > 0:
 			g.feat("sel:fragment_spread")
-			parts = append(parts, "..."+g.frags[g.r.Intn(len(g.frags))]+g.directives(25))
-		case roll < 10:
+			sp := g.spreadable(typ)
+			parts = append(parts, "..."+sp[g.r.Intn(len(sp))]+g.directives(25))
+		case roll < 18 && g.h("undef_fragment", 60):
 			g.feat("sel:spread_undefined_fragment")
 			parts = append(parts, "..."+g.pick("Missing", "F9", "_")+g.directives(10))
-		case roll < 16:
+		case roll < 30 && g.on["inline_fragments"]:
 			on := g.typeNameFor(typ)
 			g.feat("sel:inline_fragment")
 			parts = append(parts, "... on "+on+g.directives(25)+" "+g.selectionSet(on, depth-1))
-		case roll < 20:
+		case roll < 45 && g.h("inline_no_type", 60):
 			g.feat("sel:inline_fragment_no_type_condition")
 			parts = append(parts, "..."+g.directives(50)+" "+g.selectionSet(typ, depth-1))
-		case roll < 24:
+		case roll < 50:
 			g.feat("sel:__typename")
-			parts = append(parts, g.aliasPrefix()+"__typename"+g.directives(15))
+			parts = append(parts, g.aliasPrefix(usedNames, "__typename")+"__typename"+g.directives(15))
 		default:
 			var fd *fieldDesc
-			if td != nil && len(td.Fields) > 0 && g.chance(93) {
+			if td != nil && len(td.Fields) > 0 && !g.h("unknown_field", 25) {
 				fd = &td.Fields[g.r.Intn(len(td.Fields))]
 			}
 			name := g.name()
 			sub := ""
 			if fd != nil {
 				name = fd.Name
-				if fd.Type != "" {
-					sub = fd.Type
-				}
+				sub = fd.Type
 			} else {
 				g.feat("sel:unknown_field")
 				if g.chance(30) {
 					sub = g.d.Names[g.r.Intn(len(g.d.Names))]
 				}
 			}
-			s := g.aliasPrefix() + name + g.args(fd) + g.directives(22)
+			ap := g.aliasPrefix(usedNames, name)
+			if ap == "" && usedNames[name] && !g.on["alias_conflict"] {
+				continue // a second unaliased use with other arguments would be a (legitimate) conflict error
+			}
+			usedNames[name] = true
+			s := ap + name + g.args(fd) + g.directives(22)
 			switch {
 			case sub != "" && (depth <= 0 || g.budget <= 0):
-				if g.chance(50) {
+				if !g.h("bad_selection", 30) {
 					s += " { __typename }"
 				} else {
 					g.feat("sel:object_without_selection")
 				}
-			case sub != "" && g.chance(96):
+			case sub != "" && !g.h("bad_selection", 15):
 				s += " " + g.selectionSet(sub, depth-1)
-			case sub == "" && g.chance(3):
+			case sub == "" && g.h("bad_selection", 15):
 				g.feat("sel:scalar_with_selection")
 				s += " { " + g.name() + " }"
 			case sub != "":
@@ -441,13 +453,38 @@ func (g *qgen) selectionSet(typ string, depth int) string {
 			parts = append(parts, s)
 		}
 	}
+	if len(parts) == 0 && !g.on["empty_set"] {
+		parts = append(parts, "__typename")
+	}
 	return "{ " + strings.Join(parts, g.pick(" ", "\n", ", ", " ")) + " }"
 }
 
-func (g *qgen) aliasPrefix() string {
-	if g.chance(18) {
-		g.feat("sel:alias")
+// spreadable lists the fragments a selection set on typ may spread without
+// creating a cycle or a type mismatch (unless those families are enabled).
+func (g *qgen) spreadable(typ string) []string {
+	var out []string
+	for j, n := range g.frags {
+		if j <= g.curFrag && !g.on["cycle"] {
+			continue
+		}
+		if g.fragOn[n] != typ && !g.on["frag_wrong_type"] {
+			continue
+		}
+		out = append(out, n)
+	}
+	return out
+}
+
+func (g *qgen) aliasPrefix(used map[string]bool, name string) string {
+	if g.h("alias_conflict", 40) {
+		g.feat("sel:alias_from_small_pool")
 		return g.pick("a", "b", "id", "x", "__key", "_federation", "__typename", "name") + ": "
+	}
+	if g.chance(18) || used[name] || g.forceAl {
+		g.feat("sel:alias")
+		g.aliasSeq++
+		a := fmt.Sprintf("al%d", g.aliasSeq)
+		return a + ": "
 	}
 	return ""
 }
@@ -456,16 +493,21 @@ var varTypes = []string{"Int", "Float", "String", "Boolean", "ID", "[Int]", "[St
 	"Filter_InputObject", "Nope", "[[[[Int]]]]", "int64", "bool", "[[Int!]!]!"}
 
 func (g *qgen) varDefs() string {
-	n := g.r.Intn(4)
-	if n == 0 {
+	if !(g.on["vars"] || g.on["var_defaults"] || g.on["bad_directive"]) {
 		return ""
 	}
+	n := 1 + g.r.Intn(3)
 	var parts []string
+	seen := map[string]bool{}
 	for i := 0; i < n; i++ {
 		name := g.pick("a", "b", "v", "flag", "id", "if", "on")
+		if seen[name] && !g.on["var_defaults"] {
+			continue
+		}
+		seen[name] = true
 		typ := varTypes[g.r.Intn(len(varTypes))]
 		p := "$" + name + ": " + typ
-		if g.chance(35) {
+		if g.h("var_defaults", 60) {
 			g.feat("var:default")
 			if g.chance(15) {
 				g.feat("var:default_is_variable")
@@ -499,76 +541,101 @@ var typeSystemDefs = []string{
 
 // document generates one GraphQL document.
 func (g *qgen) document() string {
-	nfr := 0
-	if g.chance(45) {
-		nfr = 1 + g.r.Intn(3)
-	}
-	pool := []string{"F", "G", "H", "on", "F"}
-	g.fragOn = map[string]string{}
-	for i := 0; i < nfr; i++ {
-		n := pool[g.r.Intn(len(pool))]
-		if _, dup := g.fragOn[n]; dup {
-			g.feat("frag:duplicate_name")
-		}
-		g.fragOn[n] = ""
-		g.frags = append(g.frags, n)
-	}
 	opKind := ""
 	switch r := g.r.Intn(100); {
-	case r < 50:
+	case r < 55:
 		opKind = "query"
-	case r < 65:
+	case r < 75:
 		opKind = "mutation"
-	case r < 73:
-		opKind = "subscription"
-		g.feat("op:subscription")
 	default:
 		g.feat("op:anonymous")
+	}
+	if g.h("subscription", 80) {
+		opKind = "subscription"
+		g.feat("op:subscription")
 	}
 	root := g.d.Query
 	if opKind == "mutation" && g.d.Mutation != "" {
 		root = g.d.Mutation
 		g.feat("op:mutation")
 	}
+	// fragments: decide names and types first so that spreads can refer to them
+	nfr := 0
+	if g.on["fragments"] || g.on["cycle"] || g.on["dup_fragment"] {
+		nfr = 1 + g.r.Intn(3)
+	}
+	pool := []string{"F", "G", "H", "I"}
+	if g.on["odd_names"] {
+		pool = append(pool, "on", "query", "_")
+	}
+	g.fragOn = map[string]string{}
+	for i := 0; i < nfr; i++ {
+		n := pool[g.r.Intn(len(pool))]
+		if _, dup := g.fragOn[n]; dup {
+			if !g.on["dup_fragment"] {
+				continue
+			}
+			g.feat("frag:duplicate_name")
+		}
+		on := root
+		if g.on["frag_wrong_type"] {
+			on = g.typeNameFor(root)
+		}
+		g.fragOn[n] = on
+		g.frags = append(g.frags, n)
+	}
 	var defs []string
 	op := ""
 	if opKind != "" {
 		op = opKind
 		if g.chance(60) {
-			op += " " + g.pick("Op", "Q", "on", "query", "_", "Op")
+			op += " " + g.pick("Op", "Q", "Op2")
+			if g.h("odd_names", 50) {
+				op = opKind + " " + g.pick("on", "query", "_", "fragment", "true")
+			}
 		}
 		op += g.varDefs()
-		if g.chance(10) {
+		if g.h("bad_directive", 20) {
 			g.feat("dir:on_operation")
 			op += g.directives(100)
 		}
 		op += " "
 	}
-	op += g.selectionSet(root, 1+g.r.Intn(4))
-	defs = append(defs, op)
-	used := map[string]bool{}
-	for _, n := range g.frags {
-		on := g.typeNameFor(root)
-		if g.chance(50) {
-			on = g.pick("Item", "User", root, "Thing", "Everyone")
+	body := g.selectionSet(root, 1+g.r.Intn(4))
+	// make sure every defined fragment is used at least once unless the case is about unused fragments
+	if len(g.frags) > 0 && !g.on["unused_fragment"] {
+		var spreads []string
+		for _, n := range g.frags {
+			if g.fragOn[n] == root || g.on["frag_wrong_type"] {
+				spreads = append(spreads, "..."+n+g.directives(20))
+			}
 		}
-		body := g.selectionSet(on, 1+g.r.Intn(3))
-		if g.chance(12) {
+		body = "{ " + strings.Join(spreads, " ") + " " + strings.TrimPrefix(body, "{ ")
+	}
+	op += body
+	defs = append(defs, op)
+	emitted := map[string]bool{}
+	for j, n := range g.frags {
+		on := g.fragOn[n]
+		g.curFrag, g.forceAl = j, true
+		fb := g.selectionSet(on, 1+g.r.Intn(3))
+		g.curFrag, g.forceAl = -1, false
+		if g.h("cycle", 70) {
 			g.feat("frag:cycle")
 			other := g.frags[g.r.Intn(len(g.frags))]
-			body = "{ ..." + other + " " + strings.TrimPrefix(body, "{ ")
+			fb = "{ ..." + other + " " + strings.TrimPrefix(fb, "{ ")
 		}
-		f := "fragment " + n + " on " + on + g.directives(8) + " " + body
-		if !used[n] || g.chance(50) {
+		f := "fragment " + n + " on " + on + g.directives(8) + " " + fb
+		if !emitted[n] || g.on["dup_fragment"] {
 			defs = append(defs, f)
 		}
-		used[n] = true
+		emitted[n] = true
 	}
-	if g.chance(8) {
+	if g.h("unused_fragment", 70) {
 		g.feat("frag:unused")
 		defs = append(defs, "fragment Unused on "+g.typeNameFor(root)+" "+g.selectionSet(root, 1))
 	}
-	if g.chance(7) {
+	if g.h("multi_op", 80) {
 		g.feat("op:multiple")
 		second := g.pick("query", "mutation", "subscription", "query Op", "")
 		if second == "query Op" {
@@ -576,13 +643,13 @@ func (g *qgen) document() string {
 		}
 		defs = append(defs, second+" "+g.selectionSet(root, 1))
 	}
-	if g.chance(8) {
+	if g.h("type_system", 85) {
 		g.feat("doc:type_system_definition")
 		defs = append(defs, typeSystemDefs[g.r.Intn(len(typeSystemDefs))])
 	}
 	g.r.Shuffle(len(defs), func(i, j int) { defs[i], defs[j] = defs[j], defs[i] })
 	doc := strings.Join(defs, g.pick("\n", " ", "\n\n# comment { ... }\n", ",,,"))
-	if g.chance(3) {
+	if g.h("odd_names", 10) {
 		g.feat("doc:bom_or_comment")
 		doc = g.pick("\ufeff", "# only a comment\n", "\n\n\t , ") + doc
 	}
@@ -723,9 +790,30 @@ func genCase(r *rand.Rand, i int, zoo, gw *schemaDesc) *gcase {
 	if r.Intn(100) < 35 {
 		c.Schema, d = "gw", gw
 	}
-	g := &qgen{r: r, d: d, feats: map[string]bool{}, usedVars: map[string]bool{}, budget: 60}
+	g := &qgen{r: r, d: d, feats: map[string]bool{}, usedVars: map[string]bool{}, budget: 60, on: map[string]bool{}, curFrag: -1}
+	nOn := 0
+	switch roll := r.Intn(100); {
+	case roll < 10:
+		nOn = 0
+	case roll < 50:
+		nOn = 1
+	case roll < 75:
+		nOn = 2
+	case roll < 90:
+		nOn = 4
+	default:
+		nOn = len(families)
+	}
+	for k := 0; k < nOn; k++ {
+		g.on[families[r.Intn(len(families))]] = true
+	}
+	for _, benign := range []string{"directives", "fragments", "inline_fragments", "vars"} {
+		if r.Intn(100) < 35 {
+			g.on[benign] = true
+		}
+	}
 	c.Query = g.document()
-	if r.Intn(100) < 35 {
+	if r.Intn(100) < 25 {
 		g.feat("bytes:mutated_query")
 		c.Query = mutateBytes(r, c.Query)
 	}
